@@ -35,7 +35,7 @@ void xs_call(xs *s, superlu_options_t *opt)
                     &s->B.M, &s->X.M, s->rpg, s->rcond, s->ferr, s->berr, &s->Glu, &s->mu, &s->stat, &info);
     WK_PHASE(2);
     s->info = (long)info;
-    if (opt->Fact != FACTORED) s->have_LU = (info >= 0 && info <= s->n + 1 && s->lwork != -1);
+    if (opt->Fact != FACTORED) s->have_LU = (info >= 0 && (info <= s->n || (info == s->n + 1 && opt->ConditionNumber == YES)) && s->lwork != -1);
 }
 void xs_free_LU(xs *s)
 {
